@@ -627,18 +627,22 @@ fn place<'tcx>(tcx: TyCtxt<'tcx>, body: &Body<'tcx>, p: &Place<'tcx>) -> J {
         match elem {
             ProjectionElem::Deref => proj.push(jstr("*")),
             ProjectionElem::Field(f, _) => {
-                let name = match pty.ty.kind() {
+                let (name, owner) = match pty.ty.kind() {
                     ty::Adt(a, _) => {
                         let v = match pty.variant_index {
                             Some(v) => a.variant(v),
                             None if !a.is_enum() => a.non_enum_variant(),
                             None => a.variant(rustc_abi::VariantIdx::from_u32(0)),
                         };
-                        v.fields[f].name.to_string()
+                        (v.fields[f].name.to_string(), Some(tcx.def_path_str(a.did())))
                     }
-                    _ => format!("{}", f.as_u32()),
+                    _ => (format!("{}", f.as_u32()), None),
                 };
-                proj.push(J::Obj(vec![("f".into(), jstr(name))]));
+                let mut fo = vec![("f".into(), jstr(name))];
+                if let Some(ow) = owner {
+                    fo.push(("adt".into(), jstr(ow)));
+                }
+                proj.push(J::Obj(fo));
             }
             ProjectionElem::Index(l) => {
                 proj.push(J::Obj(vec![("idx".into(), J::Num(l.as_u32() as i128))]));
